@@ -1,5 +1,5 @@
 import MdIt.Props.MemoSafe
-open MdIt.Inline
+open MdIt.Inline MdIt.Pipeline
 
 #check @lookahead_guard_free
 #check @skip_guard_free
@@ -79,6 +79,23 @@ open MdIt.Inline
 #check @parseInline_total_of_nestHyps
 #check @parseInline_total_coherent_link
 #check @nestHyps_of
+#check @parseLinkL2_core
+#check @just_link_call
+#check @parseLinkL2_image
+#check @parseLinkL2Part_image
+#check @parseInline_total_nocode
+#check @parseInline_total_coherent_nocode
+#check @backL2_of_noDouble
+#check @parseInline_total_nodouble
+#check @parseInline_total_coherent_nodouble
+#check @doc_tables_mapOK
+#check @doc_total_nocode
+#check @doc_total_nodouble
+#check @docNoDoubleTick_of_check
+#check @noDoubleTick_of_pfth
+#check @docNoDoubleTick_of_src
+#check @doc_total_src
+#check @doc_total_stock
 
 #print axioms lookahead_guard_free
 #print axioms skip_guard_free
@@ -158,3 +175,20 @@ open MdIt.Inline
 #print axioms parseInline_total_of_nestHyps
 #print axioms parseInline_total_coherent_link
 #print axioms nestHyps_of
+#print axioms parseLinkL2_core
+#print axioms just_link_call
+#print axioms parseLinkL2_image
+#print axioms parseLinkL2Part_image
+#print axioms parseInline_total_nocode
+#print axioms parseInline_total_coherent_nocode
+#print axioms backL2_of_noDouble
+#print axioms parseInline_total_nodouble
+#print axioms parseInline_total_coherent_nodouble
+#print axioms doc_tables_mapOK
+#print axioms doc_total_nocode
+#print axioms doc_total_nodouble
+#print axioms docNoDoubleTick_of_check
+#print axioms noDoubleTick_of_pfth
+#print axioms docNoDoubleTick_of_src
+#print axioms doc_total_src
+#print axioms doc_total_stock
